@@ -7,18 +7,14 @@ import (
 	"bufio"
 	"bytes"
 	"fmt"
-	"go/token"
 	"go/types"
 	"os"
 	"os/exec"
-	"regexp"
 	"sort"
 	"strings"
-	"time"
+	"sync"
 
-	"golang.org/x/tools/go/packages"
 	"golang.org/x/tools/go/ssa"
-	"golang.org/x/tools/go/ssa/ssautil"
 )
 
 const prelude = `(declare-sort Str 0)
@@ -874,12 +870,88 @@ func (g *Gen) mergePreds(b *ssa.BasicBlock, preds []*ssa.BasicBlock, outState ma
 
 type result struct {
 	ob     Oblig
-	status string
+	status string // unsat | sat | unknown | no-answer | dead-path | vacuous
+	solver string
+	smt    string // stand-alone query (kept for obligations that are not discharged)
 }
 
-func solve(g *Gen) []result {
+// solver settings (set by the CLI)
+var (
+	secondChanceTimeout = 5   // seconds, per undischarged obligation
+	knownTimeout        = 1   // seconds, for obligations listed as known findings
+	vacuityTimeout      = 5   // seconds
+	knownObligations    = map[string]bool{} // "<func>/<obligation>" of open known findings: short second chance
+	crossCheck          = false // thorough: re-discharge every obligation stand-alone on a second solver
+	solverSeed          = 0
+)
+
+type solverSpec struct {
+	name string
+	argv func(timeout int) []string
+	pre  string
+}
+
+var fallbackSolvers = []solverSpec{
+	{"z3-4.8.12", func(t int) []string { return []string{"z3", "-in", fmt.Sprintf("-T:%d", t), "smt.mbqi=false"} }, ""},
+	{"z3-5.1.0", func(t int) []string { return []string{"z3-new", "-in", fmt.Sprintf("-T:%d", t), "smt.mbqi=false"} }, ""},
+	{"cvc5-1.0", func(t int) []string {
+		return []string{"cvc5", "--lang=smt2", fmt.Sprintf("--tlimit=%d", t*1000), "-"}
+	}, "(set-logic ALL)\n"},
+}
+
+func firstLine(b []byte) string {
+	for _, l := range strings.Split(string(b), "\n") {
+		l = strings.TrimSpace(l)
+		if l == "sat" || l == "unsat" || l == "unknown" || l == "timeout" {
+			return l
+		}
+	}
+	return "no-answer"
+}
+
+// race runs the stand-alone query on the fallback solvers concurrently; the first `unsat` wins.
+func race(query string, timeout int, only string) (string, string) {
+	type ans struct{ status, solver string }
+	ch := make(chan ans, len(fallbackSolvers))
+	n := 0
+	var cmds []*exec.Cmd
+	for _, sv := range fallbackSolvers {
+		if only != "" && sv.name != only {
+			continue
+		}
+		n++
+		sv := sv
+		c := exec.Command(sv.argv(timeout)[0], sv.argv(timeout)[1:]...)
+		c.Stdin = strings.NewReader(sv.pre + query)
+		cmds = append(cmds, c)
+		go func() {
+			out, _ := c.Output()
+			ch <- ans{firstLine(out), sv.name}
+		}()
+	}
+	best := ans{"no-answer", ""}
+	for i := 0; i < n; i++ {
+		a := <-ch
+		if a.status == "unsat" {
+			for _, c := range cmds {
+				if c.Process != nil {
+					c.Process.Kill()
+				}
+			}
+			return "unsat", a.solver
+		}
+		if a.status == "sat" || (best.status == "no-answer" && a.status != "no-answer") {
+			if best.status != "sat" {
+				best = a
+			}
+		}
+	}
+	return best.status, best.solver
+}
+
+func solve(g *Gen, fname string) ([]result, bool) {
 	if len(g.obs) == 0 {
-		return nil
+		return nil, false
 	}
 	var sb bytes.Buffer
 	sb.WriteString(prelude)
@@ -904,52 +976,50 @@ func solve(g *Gen) []result {
 		standalone[obIdx] = header.String() + strings.Join(assertsSoFar, "\n") + fmt.Sprintf("\n(assert %s)\n(assert (not %s))\n(check-sat)\n", ev.ob.PC, ev.ob.Cond)
 		obIdx++
 	}
-	// vacuity: the whole context must be satisfiable
-	sb.WriteString("(push)\n(check-sat)\n(pop)\n")
 	if os.Getenv("GOVC_DUMP") != "" {
 		os.WriteFile(os.Getenv("GOVC_DUMP"), sb.Bytes(), 0644)
 	}
-	cmd := exec.Command("z3", "-in", "-T:30", "smt.mbqi=false", "smt.auto_config=false")
+	// vacuity, for real: the complete set of assumptions must be satisfiable (stand-alone, not incremental); runs concurrently
+	vac := make(chan string, 1)
+	go func() {
+		var ctx bytes.Buffer
+		ctx.WriteString(header.String())
+		ctx.WriteString(strings.Join(assertsSoFar, "\n"))
+		ctx.WriteString("\n(check-sat)\n")
+		c := exec.Command("z3", "-in", fmt.Sprintf("-T:%d", vacuityTimeout), "smt.mbqi=false")
+		c.Stdin = &ctx
+		o, _ := c.Output()
+		vac <- firstLine(o)
+	}()
+	cmd := exec.Command("z3", "-in", "-T:60", "smt.mbqi=false", "smt.auto_config=false", fmt.Sprintf("smt.random_seed=%d", solverSeed))
 	cmd.Stdin = bytes.NewReader(sb.Bytes())
 	out, _ := cmd.Output()
 	sc := bufio.NewScanner(bytes.NewReader(out))
+	sc.Buffer(make([]byte, 1<<20), 1<<20)
 	var lines []string
 	for sc.Scan() {
 		line := strings.TrimSpace(sc.Text())
 		if line == "sat" || line == "unsat" || line == "unknown" {
 			lines = append(lines, line)
 		} else if strings.Contains(line, "error") {
-			fmt.Println("   Z3:", line)
+			g.note("solver error: %s", line)
 		}
 	}
-	// vacuity, for real: the complete set of assumptions must be satisfiable (stand-alone, not incremental)
-	{
-		var ctx bytes.Buffer
-		ctx.WriteString(header.String())
-		ctx.WriteString(strings.Join(assertsSoFar, "\n"))
-		ctx.WriteString("\n(check-sat)\n")
-		c := exec.Command("z3", "-in", "-T:10", "smt.mbqi=false")
-		c.Stdin = &ctx
-		o, _ := c.Output()
-		if strings.HasPrefix(strings.TrimSpace(string(o)), "unsat") {
-			fmt.Println("   VACUOUS CONTEXT: the assumptions of this function are contradictory (stand-alone check)")
-			for i := range g.obs {
-				g.obs[i].Kind = "VACUOUS"
-			}
-			var res []result
-			for _, ob := range g.obs {
-				res = append(res, result{ob, "vacuous"})
-			}
-			return res
+	if v := <-vac; v == "unsat" {
+		var res []result
+		for _, ob := range g.obs {
+			ob.Kind = "VACUOUS"
+			res = append(res, result{ob: ob, status: "vacuous"})
 		}
+		return res, true
 	}
-	var res []result
-	if len(lines) == len(g.obs)+1 {
-		if lines[len(lines)-1] == "unsat" {
-			fmt.Println("   VACUOUS CONTEXT (requires/axioms contradictory)")
-		}
-		lines = lines[:len(lines)-1]
+	res := make([]result, 0, len(g.obs))
+	type job struct {
+		idx int
 	}
+	var wg sync.WaitGroup
+	sem := make(chan struct{}, 6)
+	var mu sync.Mutex
 	for i, o := range g.obs {
 		s := "no-answer"
 		if i < len(lines) {
@@ -958,123 +1028,55 @@ func solve(g *Gen) []result {
 		if o.Kind == "cover" {
 			// a cover must FAIL: "false" is provable only on a path whose assumptions are contradictory
 			if s == "unsat" {
-				res = append(res, result{o, "dead-path"})
+				res = append(res, result{ob: o, status: "dead-path", solver: "z3-4.8.12/incremental", smt: standalone[i]})
+			} else {
+				res = append(res, result{ob: o, status: "reachable", solver: "z3-4.8.12/incremental"})
 			}
 			continue
 		}
-		if s != "unsat" {
-			// second chance as designed: the obligation alone, non-incremental, raced on the other solvers
-			for _, solver := range [][]string{{"z3", "-in", "-T:5", "smt.mbqi=false"}, {"z3-new", "-in", "-T:5", "smt.mbqi=false"}} {
-				c := exec.Command(solver[0], solver[1:]...)
-				c.Stdin = strings.NewReader(standalone[i])
-				out2, _ := c.Output()
-				if strings.HasPrefix(strings.TrimSpace(string(out2)), "unsat") {
-					s = "unsat"
-					o.Kind = o.Kind + "*" // discharged stand-alone by a fallback solver
-					break
-				}
-			}
-		}
-		res = append(res, result{o, s})
-	}
-	return res
-}
-
-func main() {
-	contractsFile := os.Args[1]
-	filter := regexp.MustCompile(os.Args[2])
-	all, err := parseContracts(contractsFile)
-	if err != nil {
-		fmt.Println("contract parse error:", err)
-		os.Exit(2)
-	}
-	mode := packages.NeedName | packages.NeedFiles | packages.NeedCompiledGoFiles | packages.NeedImports | packages.NeedTypes | packages.NeedTypesSizes | packages.NeedSyntax | packages.NeedTypesInfo | packages.NeedDeps
-	cfg := &packages.Config{Mode: mode, Dir: "/repo", Tests: false}
-	if d := os.Getenv("VERIF_REPO"); d != "" {
-		cfg.Dir = d
-	}
-	t0 := time.Now()
-	pkgs, err := packages.Load(cfg, os.Args[3:]...)
-	if err != nil {
-		panic(err)
-	}
-	if packages.PrintErrors(pkgs) > 0 {
-		os.Exit(1)
-	}
-	prog, spkgs := ssautil.Packages(pkgs, ssa.NaiveForm|ssa.GlobalDebug)
-	prog.Build()
-	fmt.Printf("loaded in %.1fs\n", time.Since(t0).Seconds())
-	used := map[string]bool{}
-	tot, ok := 0, 0
-	for _, p := range spkgs {
-		if p == nil {
+		r := result{ob: o, status: s, solver: "z3-4.8.12/incremental"}
+		res = append(res, r)
+		ri := len(res) - 1
+		need := s != "unsat" || crossCheck
+		if !need {
 			continue
 		}
-		for _, f := range allFuncs(prog, p) {
-			short := f.RelString(f.Pkg.Pkg)
-			if !filter.MatchString(f.String()) {
-				continue
-			}
-			ctr := all[short]
-			if ctr == nil {
-				ctr = all[f.String()]
-			}
-			if ctr != nil {
-				used[ctr.Func] = true
-				if ctr.Pure && len(ctr.Ensures) == 0 {
-					continue
+		wg.Add(1)
+		go func(ri, i int, first string) {
+			defer wg.Done()
+			sem <- struct{}{}
+			defer func() { <-sem }()
+			if first != "unsat" {
+				// second chance as designed: the obligation alone, non-incremental, raced on the solvers
+				to := secondChanceTimeout
+				if knownObligations[fname+"/"+g.obs[i].Name] {
+					to = knownTimeout
 				}
-			}
-			g := &Gen{w: newWorld(prog), f: f, ctr: ctr, all: all, vals: map[ssa.Value]Term{}, addrs: map[ssa.Value]Addr{}, extr: map[string]Term{}, escaping: computeEscaping(f), params: map[string]*ssa.Parameter{}}
-			for _, prm := range f.Params {
-				registerStruct(prm.Type())
-			}
-			func() {
-				defer func() {
-					if r := recover(); r != nil {
-						fmt.Println("GEN PANIC", f, r)
-					}
-				}()
-				g.run()
-			}()
-			t1 := time.Now()
-			res := solve(g)
-			mark := "sweep"
-			if ctr != nil {
-				mark = "contract"
-			}
-			fmt.Printf("== %s [%s] %d obligations, %.2fs\n", short, mark, len(res), time.Since(t1).Seconds())
-			for _, r := range res {
-				tot++
-				if r.status == "unsat" {
-					ok++
-					if os.Getenv("GOVC_VERBOSE") != "" {
-						fmt.Printf("   ok      %-10s %s\n", r.ob.Kind, r.ob.Name)
-					}
+				st, sv := race(standalone[i], to, "")
+				mu.Lock()
+				if st == "unsat" {
+					res[ri].status, res[ri].solver = "unsat", sv+"/stand-alone"
 				} else {
-					fmt.Printf("   FAILED  %-10s %-45s %s:%d (%s)\n", r.ob.Kind, r.ob.Name, lastSeg(r.ob.Pos.Filename), r.ob.Pos.Line, r.status)
+					if st != "no-answer" {
+						res[ri].status = st
+					}
+					res[ri].smt = standalone[i]
 				}
+				mu.Unlock()
+				return
 			}
-			for _, n := range g.notes {
-				if strings.HasPrefix(n, "spec error") {
-					fmt.Println("   SPEC ERROR (counts as failure):", n)
-					tot++
-				} else if os.Getenv("GOVC_VERBOSE") != "" {
-					fmt.Println("   note:", n)
-				}
+			// cross-check (thorough): an independent solver must agree, stand-alone
+			st, _ := race(standalone[i], secondChanceTimeout, "z3-5.1.0")
+			mu.Lock()
+			if st == "sat" {
+				res[ri].status = "solver-disagreement"
+				res[ri].smt = standalone[i]
+			} else if st == "unsat" {
+				res[ri].solver += "+z3-5.1.0"
 			}
-		}
+			mu.Unlock()
+		}(ri, i, s)
 	}
-	var unused []string
-	for name, c := range all {
-		if !usedContracts[c.Func] && !used[c.Func] && name == c.Func {
-			unused = append(unused, name)
-		}
-	}
-	sort.Strings(unused)
-	for _, u := range unused {
-		fmt.Println("   UNUSED CONTRACT:", u)
-	}
-	fmt.Printf("TOTAL obligations=%d discharged=%d\n", tot, ok)
-	_ = token.NoPos
+	wg.Wait()
+	return res, false
 }
